@@ -4,126 +4,82 @@
    Setting (SummaryRoundTrip.v).  A summary [sm] is a list of rows (label, "%.3f" value texts, Actions encoding,
    note), As-Is row first, written by the marshaller as the records [marshal_records names sm]; the engine is
    configured with the scenario whose as-is model has the decision variables [asis] (name, value).
-   [cast], [fmt] are ANY caster / float formatter that agree with the model GoCast.v wherever the model speaks
-   (strconv / fmt are trusted; the model is tied to them exhaustively on short strings over [0-9A-F:]).
+   [cast] is ANY caster that agrees with the model GoCast.v wherever the model speaks (strconv is trusted; the model
+   is tied to it exhaustively on short strings over [0-9A-F:]); [fmt] is ANY float formatter (it is never reached).
    [wf_summary asis sm] (boolean): first label is As-Is and its values are the as-is model's; every row has one
-   value per variable, a label and a note that are text, value texts that are numbers, an encoding over
-   [0-9A-Fa-f:]; labels are distinct; variable names are distinct and none is Solution/Actions/Summary.
-   [loaded cast asis sm pool] is the engine state after a successful POST (table of [sm], solution pool [pool]).
+   value per variable, a note that is text, value texts that are numbers, an encoding over [0-9A-Fa-f:] — ANY such
+   text, including ones that also parse as a number, an exponent literal or a boolean; labels are distinct; variable
+   names are distinct and none is Solution/Actions/Summary.
+   [loaded cast asis sm pool] is the engine state holding the table of [sm] and the solution pool [pool].
 
-   Known open defect D9: cells are type-cast on load, so an encoding that also parses as a float or a bool is not
-   read back verbatim.  The three clauses of the property therefore carry the hypothesis
-   [encodings_stable sm = true] (every non-as-is encoding satisfies [cast_stable]: CellString gives it back
-   verbatim); the unrestricted statements are refuted below with the witnesses 1E3, 1000000 and F. *)
+   Since b0400cb (CellString returns the cell's text verbatim) and 43fcffa (POST /solutions clears the pool) the
+   three clauses hold at FULL strength: no stability hypothesis on the encodings, any earlier engine history. *)
 From Coq Require Import List String Ascii QArith Bool Arith.
 From Crem Require Import Base.Res CsvTable GoCast GoCastProofs SummaryRoundTrip SummaryProofs.
 Import ListNotations.
 Local Open Scope string_scope.
 Local Open Scope nat_scope.
 
-(* ---- clause 1: the summary is accepted by POST /solutions ---- *)
-(* full statement:  forall sm, wf_summary asis sm = true -> post_solutions ... = Ok (S200, _)   — refuted *)
-Theorem C13_accepts_partial : forall cast fmt asis sm st, cast_agrees cast -> fmt_agrees fmt ->
-  wf_summary asis sm = true -> encodings_stable sm = true ->
+(* ---- clause 1: the summary is accepted by POST /solutions, whatever the engine held before; the table is
+        replaced and the solution pool emptied ---- *)
+Theorem C13_accepts : forall cast fmt asis sm st, cast_agrees cast ->
+  wf_summary asis sm = true ->
   post_solutions cast fmt asis st (CsvRecords (marshal_records (map fst asis) sm)) =
-  Ok (S200, loaded cast asis sm (s_pool st)).
+  Ok (S200, loaded cast asis sm []).
 Proof. exact c13_accepts. Qed.
 
-Theorem C13_accepts_refuted :
-  exists asis sm, wf_summary asis sm = true /\
-    post_solutions model_cast model_fmt asis fresh (CsvRecords (marshal_records (map fst asis) sm)) = Ok (S400, fresh).
-Proof. exact c13_accepts_refuted. Qed.
-
 (* ---- clause 2: lookup by label returns the row's OWN encoding and summary text ---- *)
-(* (the pool entry [Decoded e s] is the model decoded from the text e, with attributes Encoding = e, Summary = s) *)
-Theorem C13_lookup_exact_partial : forall cast fmt asis sm pool r, cast_agrees cast -> fmt_agrees fmt ->
-  wf_summary asis sm = true -> encodings_stable sm = true ->
+(* (the pool entry [Decoded e s] is the model decoded from the text e, with attributes Encoding = e, Summary = s;
+   [assoc (r_label r) pool = None]: the label has not been fetched since the last POST — true right after a POST
+   by C13_accepts, and C13_lookup_again covers the repeated request) *)
+Theorem C13_lookup_exact : forall cast fmt asis sm pool r, cast_agrees cast ->
+  wf_summary asis sm = true ->
   In r (tl sm) -> assoc (r_label r) pool = None ->
   get_solution fmt (loaded cast asis sm pool) (r_label r) =
   Ok (Decoded (r_enc r) (r_note r), loaded cast asis sm ((r_label r, (r_enc r, r_note r)) :: pool)).
 Proof. exact c13_lookup_exact. Qed.
 
-(* ... also when asked again (now served from the pool) *)
-Theorem C13_lookup_again_partial : forall cast fmt asis sm pool r, cast_agrees cast -> fmt_agrees fmt ->
-  wf_summary asis sm = true -> encodings_stable sm = true ->
+Theorem C13_lookup_again : forall cast fmt asis sm pool r, cast_agrees cast ->
+  wf_summary asis sm = true ->
   In r (tl sm) -> assoc (r_label r) pool = None ->
   exists st', get_solution fmt (loaded cast asis sm pool) (r_label r) = Ok (Decoded (r_enc r) (r_note r), st') /\
     get_solution fmt st' (r_label r) = Ok (Decoded (r_enc r) (r_note r), st').
 Proof. exact c13_lookup_again. Qed.
 
-(* the As-Is label returns the as-is solution, an unknown label 404 — for ALL well-formed summaries (no D9 hypothesis) *)
-Theorem C13_lookup_asis : forall cast fmt asis sm pool, cast_agrees cast ->
+Theorem C13_lookup_asis : forall cast fmt asis sm pool,
   wf_summary asis sm = true ->
   get_solution fmt (loaded cast asis sm pool) "As-Is" = Ok (AsIsSolution, loaded cast asis sm pool).
 Proof. exact c13_lookup_asis. Qed.
 
-Theorem C13_lookup_unknown : forall cast fmt asis sm pool label, cast_agrees cast ->
-  wf_summary asis sm = true -> (forall r, In r sm -> r_label r <> label) ->
+Theorem C13_lookup_unknown : forall cast fmt asis sm pool label,
+  (forall r, In r sm -> r_label r <> label) ->
   get_solution fmt (loaded cast asis sm pool) label = Ok (NotFound, loaded cast asis sm pool).
 Proof. exact c13_lookup_unknown. Qed.
 
-(* fresh engine, POST then GET, in one statement *)
-Theorem C13_round_trip_partial : forall cast fmt asis sm r, cast_agrees cast -> fmt_agrees fmt ->
-  wf_summary asis sm = true -> encodings_stable sm = true -> In r (tl sm) ->
+(* POST then GET in one statement, from ANY engine state [st] (any earlier summary, any solutions already pooled
+   under the same labels): the answer is this summary's row *)
+Theorem C13_round_trip : forall cast fmt asis sm st r, cast_agrees cast ->
+  wf_summary asis sm = true -> In r (tl sm) ->
   exists st' st'',
-    post_solutions cast fmt asis fresh (CsvRecords (marshal_records (map fst asis) sm)) = Ok (S200, st') /\
+    post_solutions cast fmt asis st (CsvRecords (marshal_records (map fst asis) sm)) = Ok (S200, st') /\
     get_solution fmt st' (r_label r) = Ok (Decoded (r_enc r) (r_note r), st'').
 Proof. exact c13_round_trip. Qed.
 
-Theorem C13_lookup_exact_refuted :
-  exists asis sm r, wf_summary asis sm = true /\ In r (tl sm) /\
-    exists st' e s st'',
-      post_solutions model_cast model_fmt asis fresh (CsvRecords (marshal_records (map fst asis) sm)) = Ok (S200, st') /\
-      get_solution model_fmt st' (r_label r) = Ok (Decoded e s, st'') /\ e <> r_enc r.
-Proof. exact c13_lookup_exact_refuted. Qed.
-
-(* The hypothesis [assoc (r_label r) pool = None] is needed too: POST /solutions does not reset the pool. *)
-Theorem C13_lookup_after_repost_refuted :
-  exists asis sm1 sm2 r,
-    wf_summary asis sm1 = true /\ encodings_stable sm1 = true /\
-    wf_summary asis sm2 = true /\ encodings_stable sm2 = true /\ In r (tl sm2) /\
-    exists st1 st2 st3 st4 f e s,
-      post_solutions model_cast model_fmt asis fresh (CsvRecords (marshal_records (map fst asis) sm1)) = Ok (S200, st1) /\
-      get_solution model_fmt st1 (r_label r) = Ok (f, st2) /\
-      post_solutions model_cast model_fmt asis st2 (CsvRecords (marshal_records (map fst asis) sm2)) = Ok (S200, st3) /\
-      get_solution model_fmt st3 (r_label r) = Ok (Decoded e s, st4) /\ e <> r_enc r.
-Proof. exact c13_lookup_after_repost_refuted. Qed.
-
 (* ---- clause 3: setting the model from the encoding of a non-as-is row marks it as a front member ---- *)
 (* [recode e = Some e]: the encoding is the canonical text of the action set it decodes to (C09: true of every
-   encoding the compressor writes) *)
-Theorem C13_front_member_partial : forall cast fmt asis recode sm pool r, cast_agrees cast -> fmt_agrees fmt ->
-  wf_summary asis sm = true -> encodings_stable sm = true ->
+   encoding the compressor writes; the engine compares the model's re-encoded text with the Actions cells) *)
+Theorem C13_front_member : forall cast fmt asis recode sm pool r, cast_agrees cast ->
+  wf_summary asis sm = true ->
   In r (tl sm) -> recode (r_enc r) = Some (r_enc r) ->
   pareto_member fmt recode (loaded cast asis sm pool) (r_enc r) = Ok (Some (Some true)).
 Proof. exact c13_front_member. Qed.
 
 (* and only those: an encoding that is none of rows 1.. (e.g. only the as-is row's) is not a member *)
-Theorem C13_front_non_member_partial : forall cast fmt asis recode sm pool e e', cast_agrees cast -> fmt_agrees fmt ->
-  wf_summary asis sm = true -> encodings_stable sm = true ->
+Theorem C13_front_non_member : forall cast fmt asis recode sm pool e e', cast_agrees cast ->
+  wf_summary asis sm = true ->
   recode e = Some e' -> (forall r, In r (tl sm) -> r_enc r <> e') ->
   pareto_member fmt recode (loaded cast asis sm pool) e = Ok (Some (Some false)).
 Proof. exact c13_front_non_member. Qed.
-
-Theorem C13_front_member_refuted :
-  exists asis sm r st', wf_summary asis sm = true /\ In r (tl sm) /\
-    post_solutions model_cast model_fmt asis fresh (CsvRecords (marshal_records (map fst asis) sm)) = Ok (S200, st') /\
-    pareto_member model_fmt (fun e => Some e) st' (r_enc r) = Ok (Some (Some false)).
-Proof. exact c13_front_member_refuted. Qed.
-
-(* ---- where D9 cannot strike: encodings of several words (scenarios with more than 64 actions) ----
-   Every string over [0-9A-Fa-f:] that contains ':' is text for the caster, so for such summaries the round trip
-   holds with NO stability hypothesis. *)
-Theorem C13_multiword_encoding_is_stable : forall s,
-  forallb hexcolon (chars s) = true -> In ":"%char (chars s) -> cast_stable s = true.
-Proof. exact colon_encoding_stable. Qed.
-
-Theorem C13_round_trip_multiword : forall cast fmt asis sm r, cast_agrees cast -> fmt_agrees fmt ->
-  wf_summary asis sm = true -> multiword sm = true -> In r (tl sm) ->
-  exists st' st'',
-    post_solutions cast fmt asis fresh (CsvRecords (marshal_records (map fst asis) sm)) = Ok (S200, st') /\
-    get_solution fmt st' (r_label r) = Ok (Decoded (r_enc r) (r_note r), st'').
-Proof. exact c13_round_trip_multiword. Qed.
 
 (* ---- the hypotheses of wf_summary are met by what the marshaller writes: every "%.3f" text (optional '-',
    one or more digits, '.', digits) of a value below the float64 range is a number for the caster ---- *)
@@ -136,35 +92,35 @@ Example C13_example_value_text :
   vtext_string v = "-1123.266" /\ vtext_ok v = true /\ vtext_in_range v = true.
 Proof. vm_compute. repeat split; reflexivity. Qed.
 
-(* ---- non-vacuity: the hypotheses are met by concrete things ---- *)
-Example C13_example_agrees : cast_agrees model_cast /\ fmt_agrees model_fmt.
-Proof. split; [exact model_cast_agrees|exact model_fmt_agrees]. Qed.
+(* ---- non-vacuity ---- *)
+Example C13_example_agrees : cast_agrees model_cast.
+Proof. exact model_cast_agrees. Qed.
 
 Example C13_example_summary :
   let sm := [ex_row0;
              mkRow "1-of-3" ["0.500"; "3.000"] "1FFF" "Pareto front member 1 of 3";
-             mkRow "2-of-3" ["0.250"; "4.000"] "148" "Pareto front member 2 of 3";
+             mkRow "2-of-3" ["0.250"; "4.000"] "1E3" "Pareto front member 2 of 3";
              mkRow "3-of-3" ["0.125"; "5.000"] "1E3:0:F" "Pareto front member 3 of 3"] in
-  wf_summary ex_asis sm = true /\ encodings_stable sm = true.
-Proof. vm_compute. split; reflexivity. Qed.
-
-Example C13_example_stability :
-  map cast_stable ["1FFF"; "148"; "0"; "999999"; "E"; "1E"; "0:0"; "1E3:F"; "1E309"; "1E3"; "F"; "1000000"; "0012"; "1E0"] =
-  [true; true; true; true; true; true; true; true; true; false; false; false; false; false].
+  wf_summary ex_asis sm = true.
 Proof. vm_compute. reflexivity. Qed.
 
-Print Assumptions C13_accepts_partial.
-Print Assumptions C13_accepts_refuted.
-Print Assumptions C13_lookup_exact_partial.
-Print Assumptions C13_lookup_again_partial.
+(* the former refutation witnesses of defect D9 (1E3 was decoded as 1000, F as "", 1000000 / 9E9 made POST answer 400,
+   0012 was decoded as 12) and of the stale pool (label 1-of-1 already served for another summary) now round-trip *)
+Example C13_example_former_D9_witnesses_round_trip :
+  forallb (ex_round_trips_from fresh) ["1E3"; "F"; "1000000"; "9E9"; "0012"; "1E0"; "1FFF"; "0:0"] = true.
+Proof. vm_compute. reflexivity. Qed.
+
+Example C13_example_repost_round_trips :
+  s_pool ex_used_state = [("1-of-1", ("3", "Pareto front member 1 of 1"))] /\
+  forallb (ex_round_trips_from ex_used_state) ["C"; "1E3"] = true.
+Proof. vm_compute. split; reflexivity. Qed.
+
+Print Assumptions C13_accepts.
+Print Assumptions C13_lookup_exact.
+Print Assumptions C13_lookup_again.
 Print Assumptions C13_lookup_asis.
 Print Assumptions C13_lookup_unknown.
-Print Assumptions C13_round_trip_partial.
-Print Assumptions C13_lookup_exact_refuted.
-Print Assumptions C13_lookup_after_repost_refuted.
-Print Assumptions C13_front_member_partial.
-Print Assumptions C13_front_non_member_partial.
-Print Assumptions C13_front_member_refuted.
-Print Assumptions C13_multiword_encoding_is_stable.
-Print Assumptions C13_round_trip_multiword.
+Print Assumptions C13_round_trip.
+Print Assumptions C13_front_member.
+Print Assumptions C13_front_non_member.
 Print Assumptions C13_value_texts_are_numbers.
